@@ -11,7 +11,7 @@ from liesel.goose.warmup import stan_epochs
 from simkit import engine_world as W
 from simkit.core import EventLog, SutError, Violations, canon, sha
 
-RUN_CAP_S = 240
+RUN_CAP_S = 900
 
 
 # ---------------------------------------------------------------------------- plans
